@@ -8,11 +8,14 @@
     nothing of the trie's shape or of the order in which hostnames arrived.
     [plain_history]: every tree frontend of the history is on a hostname that
     is non-empty, has no '/', and no leading '.' (exact and wild-card names).
-    Hostnames with /regex/ segments are outside the theorems (modelled and
-    checked by correspondence + oracle only; five defects of that feature were
-    found and fixed, see known_findings.json). *)
+    Section 3c extends the refinement to hostnames whose LEFT-MOST segment is
+    a regex ([/re/.rest], [rplain_history]).  Hostnames with a regex segment
+    elsewhere ([w./re/.rest]) or with several regex segments stay outside the
+    theorems: same trie model, checked by the correspondence runs, the
+    driver's oracle and the black-box tier only (five defects of that feature
+    were found and fixed, see known_findings.json). *)
 From Coq Require Import List Arith NArith ZArith Lia Permutation.
-From SV Require Import Common.Trie Common.TrieProofs Common.TrieRegex C04.Model C04.Proofs.
+From SV Require Import Common.Trie Common.TrieProofs Common.TrieRegex C04.Model C04.Proofs C04.ProofsRegex.
 Import ListNotations.
 
 (** ** 1. The trie *)
@@ -239,6 +242,49 @@ Theorem pre_post_remove_keeps_order :
      exists l1 r l2, l = l1 ++ (d, p, f_method fr, r) :: l2 /\ l' = l1 ++ l2).
 Proof. exact removed_from_flat. Qed.
 
+(** ** 3c. Hostnames with a left-most regex segment *)
+
+(** the router refines the configuration for every history whose tree
+    hostnames are plain or [/re/.rest] with a compiling regex: the trie holds
+    exactly the configured hostnames, each with exactly its rule list *)
+Theorem run_refines_configuration_regex :
+  forall re_ok re_match hist,
+    rplain_history re_ok hist -> refines_r re_ok (run re_ok re_match hist) (config re_ok hist).
+Proof. exact run_refines_r. Qed.
+
+(** lookup_refines_spec with regex hostnames: the rules consulted are those of
+    the request's own hostname, else of the wild-card hostname, else of A
+    configured regex hostname [/re/.rest] whose regex matches the left-most
+    label ([host_rules]); the answer is then the documented choice among them *)
+Theorem lookup_refines_spec_regex :
+  forall re_ok re_match hist h path m,
+    rplain_history re_ok hist -> good_key h -> label_of h <> [STAR] ->
+    exists rules, host_rules re_ok re_match (config re_ok hist) h rules /\
+                  documented_choice_rules re_match (config re_ok hist) rules h path m
+                                          (route_lookup re_match (run re_ok re_match hist) h path m).
+Proof. exact lookup_refines_spec_regex_lemma. Qed.
+
+(** the documented-undefined tie made explicit: when at most one configured
+    regex hostname covers the request host, [host_rules] is a function, and two
+    histories that reach the same configuration (whatever the order of their
+    operations) route the request identically *)
+Theorem regex_host_rules_unique :
+  forall re_ok re_match S h r1 r2,
+    (forall k1 k2, regex_host_for re_ok re_match S h k1 -> regex_host_for re_ok re_match S h k2 -> k1 = k2) ->
+    host_rules re_ok re_match S h r1 -> host_rules re_ok re_match S h r2 -> r1 = r2.
+Proof. exact host_rules_unique. Qed.
+
+Theorem route_determined_by_configuration_regex :
+  forall re_ok re_match h1 h2 h path m,
+    rplain_history re_ok h1 -> rplain_history re_ok h2 -> good_key h -> label_of h <> [STAR] ->
+    s_pre (config re_ok h1) = s_pre (config re_ok h2) ->
+    s_post (config re_ok h1) = s_post (config re_ok h2) ->
+    (forall k, s_tree (config re_ok h1) k = s_tree (config re_ok h2) k) ->
+    (forall k1 k2, regex_host_for re_ok re_match (config re_ok h1) h k1 ->
+                   regex_host_for re_ok re_match (config re_ok h1) h k2 -> k1 = k2) ->
+    route_lookup re_match (run re_ok re_match h1) h path m = route_lookup re_match (run re_ok re_match h2) h path m.
+Proof. exact route_determined_regex_lemma. Qed.
+
 (** unrelated_add_remove_irrelevant.  Full statement (properties.jsonl): adding
     or removing a frontend that does not match a request never changes that
     request's route.  The faithful model refutes it ([unrelated_refuted]: a
@@ -360,4 +406,24 @@ Proof.
   - right. exists [120; 46; 42]%N, [46; 97; 46; 99; 111; 109]%N. split; [reflexivity|]. split; [|reflexivity].
     split; [reflexivity|]. split; [right; eexists; reflexivity|reflexivity].
   - repeat split; vm_compute; reflexivity.
+Qed.
+
+(** a history with a regex hostname, an exact one and a removal *)
+Example regex_history_nonvacuous :
+  let rk := rkey [120; 46; 42]%N [46; 97; 46; 99; 111; 109]%N in            (* "/x.*/.a.com" *)
+  let f1 := w_front rk [47]%N [48]%N in
+  let f2 := w_front w_x_a_com [47]%N [49]%N in
+  let hist := [OAdd f1; OAdd f2; ODel f2] in
+  rplain_history (fun _ => true) hist /\
+  route_lookup (fun _ _ => true) (run (fun _ => true) (fun _ _ => true) [OAdd f1; OAdd f2]) w_x_a_com [47]%N [71]%N
+  = Some (mkroute (Some [49]%N) 0%Z false) /\
+  route_lookup (fun _ _ => true) (run (fun _ => true) (fun _ _ => true) hist) w_x_a_com [47]%N [71]%N
+  = Some (mkroute (Some [48]%N) 0%Z false).
+Proof.
+  cbv zeta. split; [|split; vm_compute; reflexivity].
+  assert (R : host_key (fun _ => true) (rkey [120; 46; 42]%N [46; 97; 46; 99; 111; 109]%N)).
+  { right. exists [120; 46; 42]%N, [46; 97; 46; 99; 111; 109]%N. split; [reflexivity|]. split; [|reflexivity].
+    split; [reflexivity|]. split; [right; eexists; reflexivity|reflexivity]. }
+  assert (P : host_key (fun _ => true) w_x_a_com) by (left; repeat constructor; cbn; discriminate).
+  constructor; [exact R|]. constructor; [exact P|]. constructor; [exact P|]. constructor.
 Qed.
